@@ -6,10 +6,13 @@ import ast
 from typing import List, Optional
 
 from ..astutil import (
-    ancestors, call_name, calls_in, calls_named, dotted, enclosing_try, lexical_guards, name_stores, test_atoms, unparse,
-    walk_local, walk_stmts,
+    ancestors, call_name, calls_in, calls_named, dotted, enclosing_stmt, enclosing_try, lexical_guards, name_stores, parent_map,
+    test_atoms, unparse, walk_local, walk_stmts,
 )
 from ..report import Registry, chain, sub
+from ._helpers_rob_b1 import (
+    bindings, dominating_guards, expand_test, expanded_atoms, inline_helpers, resolve_alias, resolved_dotted,
+)
 from ._helpers_rules_d import (
     attr_store_nodes, call_nodes, callee_is, const_is, ends_with_name, guard_atom_set, is_catch_all, kw, lexically_inside,
 )  # noqa: F401
@@ -39,6 +42,12 @@ ST = f"{SESSION}::SessionTransaction"
 BOOKKEEPING = ("_new", "_deleted", "_dirty", "_key_switches")
 
 
+def _atoms(ctx, f, g, nid) -> set:
+    """branch outcomes dominating a CFG node as (atom text, polarity), with single-assignment locals
+    (`exc = self._rollback_exception`, `parent = self._parent`) and predicate helpers expanded"""
+    return set(expanded_atoms(ctx, f, g.edge_guards(nid)))
+
+
 def _local_bound_to_call(fn_node, callee_suffix: str) -> List[str]:
     out = []
     for st in walk_stmts(fn_node.body):
@@ -58,9 +67,9 @@ def _method_call_on(c: ast.Call, recv_names, method: str) -> bool:
              "_capture_exception under safe_reraise on every exceptional path; finalize_flush_changes() only after "
              "execute() completed normally; commit() is the last statement of the try")
 def r1(ctx):
-    f = ctx.func(f"{SESSION}::Session._flush")
-    g = ctx.cfg(f)
-    pm = f.module.parents()
+    f = inline_helpers(ctx, ctx.func(f"{SESSION}::Session._flush"))   # statement-level private helpers read in place
+    g = ctx.cfg(f.node)
+    pm = parent_map(f.node)
     fcs = _local_bound_to_call(f.node, "UOWTransaction")
     txs = _local_bound_to_call(f.node, "_begin")
     ctx.require(fcs and txs, "_flush does not bind a UOWTransaction and a begun subtransaction to locals")
@@ -142,8 +151,8 @@ def r2(ctx):
     w = g.always_preceded(calls[0], sets)
     ctx.check(w is None, f"{f.key}:set-before-_flush", "_flush() can run without _flushing set", "set before _flush()", f.loc, w)
     raises = g.find(lambda n: n.kind == "stmt" and isinstance(n.stmt, ast.Raise))
-    guarded = [n for n in raises if ("self._flushing", True) in guard_atom_set(g, n)]
-    ok_set = all(("self._flushing", False) in guard_atom_set(g, n) for n in sets)
+    guarded = [n for n in raises if ("self._flushing", True) in _atoms(ctx, f, g, n)]
+    ok_set = all(("self._flushing", False) in _atoms(ctx, f, g, n) for n in sets)
     ctx.check(bool(guarded) and ok_set, f"{f.key}:reentrancy", "flush() does not refuse a re-entrant call while _flushing", "raises when already flushing", f.loc)
 
 
@@ -267,12 +276,17 @@ def r4(ctx):
     rf = ctx.func(f"{ST}._raise_for_prerequisite_state")
     g = ctx.cfg(rf)
     ctx.check(g.exit not in g.reachable([g.entry]), f"{rf.key}:always-raises", "_raise_for_prerequisite_state can return normally", "raises on every path", rf.loc)
-    pend = g.find(lambda n: n.kind == "stmt" and isinstance(n.stmt, ast.Raise) and n.stmt.exc is not None and "PendingRollbackError" in unparse(n.stmt.exc).split("(")[0])
+    pend = g.find(lambda n: n.kind == "stmt" and isinstance(n.stmt, ast.Raise) and n.stmt.exc is not None
+                  and "PendingRollbackError" in unparse(resolve_alias(rf.node, n.stmt.exc)).split("(")[0])
     state_param = rf.params[2] if len(rf.params) > 2 else "state"
     good = False
     for n in pend:
-        atoms = guard_atom_set(g, n)
-        good = good or (any(a.startswith(f"{state_param} is ") and a.endswith("DEACTIVE") and p for a, p in atoms) and ("self._rollback_exception", True) in atoms)
+        # branch outcomes that dominate the raise (if/else either way round, guard clause + fall-through raise),
+        # with a local that snapshots self._rollback_exception resolved
+        atoms = _atoms(ctx, rf, g, n)
+        deactive = any(p and a.endswith("DEACTIVE") and (a.startswith(f"{state_param} is ") or a.startswith(f"{state_param} == ")) for a, p in atoms)
+        captured = ("self._rollback_exception", True) in atoms or ("self._rollback_exception is None", False) in atoms
+        good = good or (deactive and captured)
     ctx.check(good, f"{rf.key}:pending-rollback-error",
               "PendingRollbackError is not raised exactly for state DEACTIVE with a captured _rollback_exception",
               "DEACTIVE and _rollback_exception -> PendingRollbackError", rf.loc)
@@ -292,12 +306,25 @@ def r4(ctx):
     good = False
     for n in stores:
         st = g.node(n).stmt
-        atoms = guard_atom_set(g, n)
-        tgt_parent = any(isinstance(t, ast.Attribute) and dotted(t.value) == "self._parent" for t in st.targets)
-        good = good or (tgt_parent and ("_capture_exception", True) in atoms and "exc_info" in unparse(st.value))
+        atoms = _atoms(ctx, rb, g, n)
+        tgt_parent = any(isinstance(t, ast.Attribute) and resolved_dotted(rb.node, t.value) == "self._parent" for t in st.targets)
+        good = good or (tgt_parent and ("_capture_exception", True) in atoms and "exc_info" in unparse(resolve_alias(rb.node, st.value)))
     ctx.check(good, f"{rb.key}:captures-exception",
               "rollback(_capture_exception=True) does not record the in-flight exception on the parent transaction",
               "self._parent._rollback_exception = sys.exc_info()[1] under _capture_exception", rb.loc)
+
+
+def _tv3(expr, val_of):
+    """three-valued truth of a condition (True / False / None = unknown) given the value of its atoms"""
+    if isinstance(expr, ast.UnaryOp) and isinstance(expr.op, ast.Not):
+        v = _tv3(expr.operand, val_of)
+        return None if v is None else not v
+    if isinstance(expr, ast.BoolOp):
+        vals = [_tv3(v, val_of) for v in expr.values]
+        if isinstance(expr.op, ast.And):
+            return False if any(v is False for v in vals) else (True if all(v is True for v in vals) else None)
+        return True if any(v is True for v in vals) else (False if all(v is False for v in vals) else None)
+    return val_of(expr)
 
 
 @R.rule("C32-R5", floor=6, template="T-FLOW",
@@ -327,11 +354,22 @@ def r5(ctx):
     # (b) key switches restored to the OLD key
     good = False
     for lp in [n for n in walk_local(body) if isinstance(n, ast.For)]:
-        if mentions(lp.iter, "_key_switches") and isinstance(lp.target, ast.Tuple) and len(lp.target.elts) == 2 and isinstance(lp.target.elts[1], ast.Tuple):
+        if mentions(lp.iter, "_key_switches") and isinstance(lp.target, ast.Tuple) and len(lp.target.elts) == 2:
             s = lp.target.elts[0]
-            old = lp.target.elts[1].elts[0]
+            second = lp.target.elts[1]
+            olds = set()   # spellings of the FIRST component of the (old key, new key) entry
+            if isinstance(second, ast.Tuple) and second.elts:
+                olds.add(unparse(second.elts[0]))
+            elif isinstance(second, ast.Name):
+                olds.add(f"{second.id}[0]")
+                for st in walk_stmts(lp.body):
+                    if isinstance(st, ast.Assign) and len(st.targets) == 1 and isinstance(st.targets[0], ast.Tuple) and st.targets[0].elts \
+                            and isinstance(st.value, ast.Name) and st.value.id == second.id:
+                        olds.add(unparse(st.targets[0].elts[0]))
+                    elif isinstance(st, ast.Assign) and len(st.targets) == 1 and isinstance(st.targets[0], ast.Name) and unparse(st.value) == f"{second.id}[0]":
+                        olds.add(st.targets[0].id)
             for st in walk_stmts(lp.body):
-                if isinstance(st, ast.Assign) and any(isinstance(t, ast.Attribute) and t.attr == "key" and unparse(t.value) == unparse(s) for t in st.targets) and unparse(st.value) == unparse(old):
+                if isinstance(st, ast.Assign) and any(isinstance(t, ast.Attribute) and t.attr == "key" and unparse(t.value) == unparse(s) for t in st.targets) and unparse(st.value) in olds:
                     good = True
     ctx.check(good, f"{f.key}:restore-key-switches", "primary-key switches are not undone with the first (original) key of each _key_switches entry", "s.key = oldkey", f.loc)
     # (c) deletions reverted
@@ -342,17 +380,43 @@ def r5(ctx):
                 if c.args and unparse(c.args[0]) == lp.target.id and const_is(kw(c, "revert_deletion"), True):
                     good = True
     ctx.check(good, f"{f.key}:revert-deleted", "objects deleted in the transaction (self._deleted) are not restored to persistent", "_update_impl(s, revert_deletion=True) for self._deleted | session._deleted", f.loc)
-    # (d) the rest is expired (all of it unless dirty_only)
+    # (d) the rest is expired (all of it unless dirty_only): decided on the branch outcomes that dominate the
+    #     `<state>._expire(..)` call in a loop over identity_map.all_states() -- `if c: expire`, `if not c: continue`,
+    #     split or De-Morganed conditions are the same thing.  Whenever (not dirty_only or modified or in _dirty) holds
+    #     the call must run.
     good = False
+    g5 = ctx.cfg(f)
+    pm5 = f.module.parents()
+    b5 = bindings(body)
+    dirty_p = f.params[1] if len(f.params) > 1 else "dirty_only"
     for lp in [n for n in walk_local(body) if isinstance(n, ast.For)]:
-        if "all_states" in unparse(lp.iter) and isinstance(lp.target, ast.Name):
-            for st in walk_stmts(lp.body):
-                if isinstance(st, ast.If) and any(isinstance(c.func, ast.Attribute) and c.func.attr == "_expire" and unparse(c.func.value) == lp.target.id for s in st.body for c in calls_in(s)):
-                    t = st.test
-                    if isinstance(t, ast.BoolOp) and isinstance(t.op, ast.Or) and any(unparse(v) == "not dirty_only" for v in t.values) and mentions(t, "_dirty"):
-                        good = True
-                elif isinstance(st, ast.Expr) and any(isinstance(c.func, ast.Attribute) and c.func.attr == "_expire" and unparse(c.func.value) == lp.target.id for c in calls_in(st)) and st in lp.body:
-                    good = True
+        if not ("all_states" in unparse(resolve_alias(body, lp.iter, b5)) and isinstance(lp.target, ast.Name)):
+            continue
+        X = lp.target.id
+        for c in calls_in(lp):
+            if not (isinstance(c.func, ast.Attribute) and c.func.attr == "_expire" and unparse(c.func.value) == X):
+                continue
+            st = enclosing_stmt(pm5, c)
+            guards = [(expand_test(ctx, f, t, b5), pol) for t, pol in dominating_guards(g5, pm5, body, c, st)
+                      if any(t is x for x in ast.walk(lp))]
+
+            def val(e, A):
+                if isinstance(e, ast.Name) and e.id == dirty_p:
+                    return A[0]
+                if isinstance(e, ast.Attribute) and e.attr == "modified" and unparse(e.value) == X:
+                    return A[1]
+                if isinstance(e, ast.Compare) and len(e.ops) == 1 and isinstance(e.ops[0], (ast.In, ast.NotIn)) and unparse(e.left) == X \
+                        and mentions(e.comparators[0], "_dirty"):
+                    return A[2] if isinstance(e.ops[0], ast.In) else not A[2]
+                return None
+
+            ok_all = True
+            for A in [(a, b_, c_) for a in (False, True) for b_ in (False, True) for c_ in (False, True)]:
+                expected = (not A[0]) or A[1] or A[2]
+                runs = all(_tv3(t, lambda e: val(e, A)) == pol for t, pol in guards)
+                if expected and not runs:
+                    ok_all = False
+            good = good or ok_all
     ctx.check(good, f"{f.key}:expire-rest", "remaining identity-map states are not expired (all of them unless dirty_only, then modified/_dirty ones)",
               "expire when not dirty_only or modified or in self._dirty", f.loc)
     # (e) reader/writer agreement with _take_snapshot
@@ -384,7 +448,7 @@ def r5(ctx):
             for t in st.targets:
                 if isinstance(t, ast.Attribute) and t.attr == "key" and isinstance(t.value, ast.Name):
                     n_stores += 1
-                    atoms = guard_atom_set(g, nid)
+                    atoms = _atoms(ctx, f, g, nid)
                     if (f"{t.value.id} in {E}", False) not in atoms:
                         bad.append(f"`{unparse(st)}` runs for every state of the loop, including those in `{E}` that were just expunged to transient")
         ctx.check(not bad, f"{f.key}:new-objects-stay-transient",
@@ -715,3 +779,146 @@ R.mutant("benign-expunge-local-transaction", SESSION,
 R.mutant("benign-newly-deleted-active-transaction", SESSION,
          sub("            if self._transaction:\n                self._transaction._deleted[state] = True\n",
              "            if self._transaction is not None:\n                _n = len(self._transaction._deleted)\n                self._transaction._deleted[state] = True\n"), None)
+
+# ------------------------------------------------------------------ rob-B1: refactoring families with breaking twins
+from ._helpers_rob_b1 import ast_edit, t_alias, t_invert_ifs  # noqa: E402
+
+
+def _t_extract_try_body(name, params):
+    """`try: <body> except: ...` around the commit -> `try: self.<name>(<params>) except: ...` + new method"""
+    def t(fn, owner):
+        tr = next((n for n in ast.walk(fn) if isinstance(n, ast.Try) and n.handlers
+                   and any(isinstance(c.func, ast.Attribute) and c.func.attr == "commit" for s_ in n.body for c in calls_in(s_))), None)
+        if tr is None or not isinstance(owner, ast.ClassDef):
+            return False
+        helper = ast.FunctionDef(
+            name=name, args=ast.arguments(posonlyargs=[], args=[ast.arg(arg="self")] + [ast.arg(arg=p) for p in params], vararg=None,
+                                          kwonlyargs=[], kw_defaults=[], kwarg=None, defaults=[]),
+            body=tr.body, decorator_list=[], returns=None, type_comment=None)
+        if hasattr(helper, "type_params"):
+            helper.type_params = []
+        tr.body = [ast.Expr(value=ast.Call(func=ast.Attribute(value=ast.Name(id="self", ctx=ast.Load()), attr=name, ctx=ast.Load()),
+                                           args=[ast.Name(id=p, ctx=ast.Load()) for p in params], keywords=[]))]
+        owner.body.insert(owner.body.index(fn) + 1, helper)
+        return True
+    return t
+
+
+def _t_rename(mapping):
+    def t(fn, owner=None):
+        hit = False
+        for n in ast.walk(fn):
+            if isinstance(n, ast.Name) and n.id in mapping:
+                n.id, hit = mapping[n.id], True
+        return hit
+    return t
+
+
+_HANDLER = "        except:\n            with util.safe_reraise():\n                transaction.rollback(_capture_exception=True)\n\n    def bulk_save_objects"
+R.mutant("benign-flush-try-body-in-helper-method", SESSION,
+         ast_edit("Session._flush", _t_extract_try_body("_run_flush", ["flush_context", "transaction", "objects"])), None)
+R.mutant("flush-try-body-in-helper-handler-narrowed", SESSION,
+         chain(sub(_HANDLER, _HANDLER.replace("        except:\n", "        except sa_exc.SQLAlchemyError:\n")),
+               ast_edit("Session._flush", _t_extract_try_body("_run_flush", ["flush_context", "transaction", "objects"]))), "C32-R1")
+R.mutant("flush-try-body-in-helper-finalize-before-execute", SESSION,
+         chain(sub("            finally:\n                self._warn_on_events = False\n\n            self.dispatch.after_flush(self, flush_context)\n\n            flush_context.finalize_flush_changes()\n",
+                   "            finally:\n                self._warn_on_events = False\n                flush_context.finalize_flush_changes()\n\n            self.dispatch.after_flush(self, flush_context)\n"),
+               ast_edit("Session._flush", _t_extract_try_body("_run_flush", ["flush_context", "transaction", "objects"]))), "C32-R1")
+R.mutant("benign-flush-locals-renamed", SESSION,
+         ast_edit("Session._flush", _t_rename({"transaction": "subtrans", "flush_context": "uow", "proc": "candidates", "dirty": "changed"})), None)
+R.mutant("benign-flush-objset-in-helper-early-return", SESSION,
+         chain(sub("        if objects:\n            # specific list passed in\n            objset = set()\n            for o in objects:\n                try:\n"
+                   "                    state = attributes.instance_state(o)\n\n                except exc.NO_STATE as err:\n"
+                   "                    raise exc.UnmappedInstanceError(o) from err\n                objset.add(state)\n        else:\n            objset = None\n",
+                   "        objset = self._flush_objset(objects)\n"),
+               sub("    def bulk_save_objects(\n",
+                   "    def _flush_objset(self, objects):\n        if not objects:\n            return None\n        found = set()\n        for obj in objects:\n"
+                   "            try:\n                obj_state = attributes.instance_state(obj)\n            except exc.NO_STATE as err:\n"
+                   "                raise exc.UnmappedInstanceError(obj) from err\n            found.add(obj_state)\n        return found\n\n"
+                   "    def bulk_save_objects(\n")), None)
+
+# R4: nested if/else -> guard clause + fall-through raise, attribute read once into a local (rfB_6 family)
+_PRE_OLD = (
+    "            if self._rollback_exception:\n"
+    "                raise sa_exc.PendingRollbackError(\n"
+)
+_PRE_TAIL_OLD = (
+    "                    code=\"7s2a\",\n                )\n            else:\n                raise sa_exc.InvalidRequestError(\n"
+    "                    \"This session is in 'inactive' state, due to the \"\n"
+    "                    \"SQL transaction being rolled back; no further SQL \"\n"
+    "                    \"can be emitted within this transaction.\"\n                )\n"
+)
+
+
+def _prereq_guard_clause(test: str):
+    def edit(src: str) -> str:
+        from ..report import MutantNotApplicable
+        if src.count(_PRE_OLD) != 1 or src.count(_PRE_TAIL_OLD) != 1:
+            raise MutantNotApplicable("anchor text of _raise_for_prerequisite_state not found")
+        a = src.index(_PRE_OLD)
+        b = src.index(_PRE_TAIL_OLD)
+        pending = src[a + len("            if self._rollback_exception:\n"):b] + "                    code=\"7s2a\",\n                )\n"
+        pending = "\n".join(ln[4:] if ln.startswith("    ") else ln for ln in pending.split("\n"))
+        pending = pending.replace("{self._rollback_exception}", "{flush_exception}")
+        new = (
+            "            flush_exception = self._rollback_exception\n"
+            f"            if {test}:\n"
+            "                raise sa_exc.InvalidRequestError(\n"
+            "                    \"This session is in 'inactive' state, due to the \"\n"
+            "                    \"SQL transaction being rolled back; no further SQL \"\n"
+            "                    \"can be emitted within this transaction.\"\n                )\n" + pending
+        )
+        return src[:a] + new + src[b + len(_PRE_TAIL_OLD):]
+    return edit
+
+
+R.mutant("benign-prerequisite-guard-clause-single-read", SESSION, _prereq_guard_clause("not flush_exception"), None)
+R.mutant("benign-prerequisite-guard-clause-is-none", SESSION, _prereq_guard_clause("flush_exception is None"), None)
+R.mutant("prerequisite-guard-clause-inverted", SESSION, _prereq_guard_clause("flush_exception"), "C32-R4")
+R.mutant("benign-prerequisite-branches-inverted", SESSION, ast_edit("SessionTransaction._raise_for_prerequisite_state", t_invert_ifs), None)
+R.mutant("benign-rollback-capture-parent-aliased", SESSION,
+         sub("        if self._parent and _capture_exception:\n            self._parent._rollback_exception = sys.exc_info()[1]\n",
+             "        enclosing = self._parent\n        if enclosing and _capture_exception:\n            enclosing._rollback_exception = sys.exc_info()[1]\n"), None)
+R.mutant("rollback-capture-on-self-instead-of-parent", SESSION,
+         sub("        if self._parent and _capture_exception:\n            self._parent._rollback_exception = sys.exc_info()[1]\n",
+             "        enclosing = self\n        if enclosing and _capture_exception:\n            enclosing._rollback_exception = sys.exc_info()[1]\n"), "C32-R4")
+
+# R5: session aliased, loop variables renamed, guards inverted into `continue` clauses (rfB_5 family, re-rolled for
+# the present text of _restore_snapshot)
+_KS_OLD = ("            if s not in to_expunge and s.session_id == self.session.hash_key:\n"
+           "                s.key = oldkey\n                self.session.identity_map.replace(s)\n")
+_EXP_OLD = ("        for s in self.session.identity_map.all_states():\n"
+            "            if not dirty_only or s.modified or s in self._dirty:\n"
+            "                s._expire(s.dict, self.session.identity_map._modified)\n")
+
+
+def _restore_refactored(ks_guard="s in to_expunge or s.session_id != sess.hash_key",
+                        exp_guard="dirty_only and not state.modified and state not in self._dirty"):
+    return chain(
+        sub(_KS_OLD, f"            if {ks_guard}:\n                continue\n            s.key = oldkey\n            sess.identity_map.replace(s)\n"),
+        sub(_EXP_OLD, "        for state in sess.identity_map.all_states():\n"
+                      f"            if {exp_guard}:\n                continue\n"
+                      "            state._expire(state.dict, sess.identity_map._modified)\n"),
+        sub("        to_expunge = set(self._new).union(self.session._new)\n        self.session._expunge_states(to_expunge, to_transient=True)\n",
+            "        sess = self.session\n\n        to_expunge = set(self._new).union(sess._new)\n        sess._expunge_states(to_expunge, to_transient=True)\n"),
+    )
+
+
+R.mutant("benign-restore-snapshot-alias-and-guard-clauses", SESSION, _restore_refactored(), None)
+R.mutant("restore-snapshot-guard-clause-skips-flushed-dirty", SESSION,
+         _restore_refactored(exp_guard="dirty_only and not state.modified"), "C32-R5")
+R.mutant("restore-snapshot-guard-clause-skips-all-when-not-dirty-only", SESSION,
+         _restore_refactored(exp_guard="not dirty_only or (not state.modified and state not in self._dirty)"), "C32-R5")
+R.mutant("restore-snapshot-guard-clause-rekeys-expunged", SESSION,
+         _restore_refactored(ks_guard="s.session_id != sess.hash_key"), "C32-R5")
+R.mutant("benign-restore-key-switch-entry-unpacked-in-body", SESSION,
+         sub("        for s, (oldkey, newkey) in self._key_switches.items():\n            # we probably can do this",
+             "        for s, switch in self._key_switches.items():\n            oldkey, newkey = switch\n            # we probably can do this"), None)
+R.mutant("restore-key-switch-entry-unpacked-swapped", SESSION,
+         sub("        for s, (oldkey, newkey) in self._key_switches.items():\n            # we probably can do this",
+             "        for s, switch in self._key_switches.items():\n            newkey, oldkey = switch\n            # we probably can do this"), "C32-R5")
+R.mutant("benign-restore-expire-condition-split", SESSION,
+         sub(_EXP_OLD, "        for s in self.session.identity_map.all_states():\n"
+                       "            stale = s.modified or s in self._dirty\n"
+                       "            if dirty_only and not stale:\n                continue\n"
+                       "            s._expire(s.dict, self.session.identity_map._modified)\n"), None)
